@@ -148,7 +148,7 @@ class KMeans(Medoids):
             sample_size = min(self.initialize_sample_size, len(self.series))
         indices = np.random.choice(range(0, len(self.series)), sample_size, replace=False)
         sample = self.series[indices, :].copy()
-        if self.dists_options.use_c:
+        if self.dists_options.get('use_c', False):
             fn_dm = distance_matrix_fast
         else:
             fn_dm = distance_matrix
@@ -237,10 +237,14 @@ class KMeans(Medoids):
         return means
 
     def fit_fast(self, series, monitor_distances=None):
-        use_c = self.dists_options.use_c
-        self.dists_options.use_c = True
+        had_use_c = 'use_c' in self.dists_options
+        use_c = self.dists_options.get('use_c')
+        self.dists_options['use_c'] = True
         result = self.fit(series, use_parallel=True, monitor_distances=monitor_distances)
-        self.dists_options.use_c = use_c
+        if had_use_c:
+            self.dists_options['use_c'] = use_c
+        else:
+            del self.dists_options['use_c']
         return result
 
     def fit(self, series, use_parallel=True, monitor_distances=None):
